@@ -135,8 +135,12 @@ def lattice_points(quick):
             for ct in (False, True):
                 for tf in ("", "+sse4.2", "+avx2", "+sse4.2,+avx2"):
                     pts.append((std, dis, ct, tf))
+    # whole CPU levels (they enable many more target features than the two the build script looks at)
+    for std in (True, False):
+        for cpu in ("cpu=x86-64-v2", "cpu=x86-64-v3", "cpu=native"):
+            pts.append((std, False, False, cpu))
     if quick:
-        keep = {(True, False, False, ""), (True, False, False, "+sse4.2"), (True, False, False, "+avx2"),
+        keep = {(True, False, False, "cpu=x86-64-v3"), (False, False, False, "cpu=x86-64-v3"), (False, False, False, "cpu=native"),(True, False, False, ""), (True, False, False, "+sse4.2"), (True, False, False, "+avx2"),
                 (True, True, False, "+avx2"), (True, False, True, "+sse4.2,+avx2"), (False, False, False, ""),
                 (False, False, False, "+avx2"), (True, True, True, "")}
         pts = [p for p in pts if p in keep]
@@ -145,10 +149,12 @@ def lattice_points(quick):
 
 def lattice_cmd(pt):
     std, dis, ct, tf = pt
-    name = "std%d-dis%d-ct%d-%s" % (std, dis, ct, tf.replace("+", "").replace(",", "_").replace(".", "") or "none")
+    name = "std%d-dis%d-ct%d-%s" % (std, dis, ct, tf.replace("+", "").replace(",", "_").replace(".", "").replace("=", "-") or "none")
     env = dict(ENV)
     env["CARGO_TARGET_DIR"] = os.path.join(TARGET, "lattice", name)
-    if tf:
+    if tf.startswith("cpu="):
+        env["RUSTFLAGS"] = "-C target-cpu=" + tf[4:]
+    elif tf:
         env["RUSTFLAGS"] = "-C target-feature=" + tf
     if dis:
         env["CARGO_CFG_HTTPARSE_DISABLE_SIMD"] = "1"
@@ -186,7 +192,7 @@ def run_lattice(res, prop):
     res.samples.append({"build": "cargo build --lib with std=%s CARGO_CFG_HTTPARSE_DISABLE_SIMD=%s ..._COMPILETIME=%s target-feature=%r" % pts[1]})
     res.engines.append({"engine": "build lattice (cargo build --lib of /repo, one target dir per point, no hooks)",
                         "points": len(pts), "built": ok,
-                        "space": "std on/off x DISABLE_SIMD x DISABLE_SIMD_COMPILETIME x target-feature {none,+sse4.2,+avx2,+sse4.2,+avx2}" + (" (8 corner points)" if res.tier == "quick" else " (all 32)")})
+                        "space": "std on/off x DISABLE_SIMD x DISABLE_SIMD_COMPILETIME x target-feature {none,+sse4.2,+avx2,+sse4.2,+avx2}, plus std on/off x target-cpu {x86-64-v2, x86-64-v3, native}" + (" (11 corner points)" if res.tier == "quick" else " (all 38)")})
 
 
 VARIANTS = {
@@ -240,6 +246,22 @@ def run_digests(res, prop, partitions=None):
             if a[0] != "total":
                 rows[int(a[0])] = (int(a[1]), a[2])
         return r, rows
+
+    # each variant must really be what its label says: the build switches select the documented backend
+    expected = {"runtime": "runtime-dispatch", "ct-sse42": "compile-time-sse42", "ct-avx2": "compile-time-avx2",
+                "nosimd": "swar-only", "nostd": "swar-only"}
+    for (v, prof), b in sorted(bins.items()):
+        rc, so, se, dt = run([b, "info"], timeout=60)
+        got = so.strip()
+        if rc != 0:
+            raise Machinery("digest info failed for %s" % v)
+        if got != expected[v]:
+            path = write_replay("%s-backend-%s-%s.json" % (prop, v, prof), {
+                "property": prop, "kind": "backend-selection", "variant": v, "profile": prof, "expected": expected[v], "selected": got,
+                "what": "the build switches of variant %s select the %s scanners, not the documented %s" % (v, got, expected[v])})
+            res.add_violation(path, "variant %s (%s): build selects %s, documented %s" % (v, prof, got, expected[v]))
+    if res.violations:
+        return
 
     results = []
     with concurrent.futures.ThreadPoolExecutor(max_workers=8) as ex:
@@ -396,20 +418,24 @@ def run_lifetimes(res):
 # C20: instruction counts under cachegrind
 # ------------------------------------------------------------------------------------------
 
+# instructions executed inside the parse call only (input and header array are built outside it)
+CALLGRIND = ["valgrind", "--tool=callgrind", "--callgrind-out-file=/dev/null", "--toggle-collect=verif_work_parse"]
+
+
 def run_cachegrind(res):
     binary = build_variant("runtime", "release")
     fams = run([binary, "families"])[1].split()
     base = 16 << 10 if res.tier == "quick" else 128 << 10
-    variants = ("complete", "truncated")
+    variants = ("complete", "unterminated", "error")
     jobs = [(f, base * m, v) for f in fams for v in variants for m in (1, 2, 4)]
 
     def one(job):
         f, n, v = job
-        rc, so, se, dt = run(["valgrind", "--tool=cachegrind", "--cache-sim=no", "--cachegrind-out-file=/dev/null", binary, "work", f, str(n), v], timeout=1200)
-        m = re.search(r"I\s+refs:\s+([\d,]+)", se)
-        if rc != 0 or not m:
-            raise Machinery("cachegrind run failed for %s %d: %s" % (f, n, se[-500:]))
-        return job, int(m.group(1).replace(",", ""))
+        rc, so, se, dt = run(CALLGRIND + [binary, "work", f, str(n), v], timeout=1200)
+        m = re.search(r"Collected\s*:\s*(\d+)", se)
+        if rc != 0 or not m or int(m.group(1)) == 0:
+            raise Machinery("callgrind run failed for %s %d: %s" % (f, n, se[-500:]))
+        return job, int(m.group(1))
 
     counts = {}
     with concurrent.futures.ThreadPoolExecutor(max_workers=os.cpu_count() or 8) as ex:
@@ -422,14 +448,14 @@ def run_cachegrind(res):
         d1, d2 = b - a, c - b
         ratio = d2 / max(d1, 1)
         rows.append({"family": f, "variant": v, "sizes": [base, 2 * base, 4 * base], "instructions": [a, b, c], "increment_ratio": round(ratio, 2)})
-        if ratio > 3.0:
+        if ratio > 2.5:
             path = write_replay("C20-work-%s-%s.json" % (f, v), {"property": "C20", "kind": "work", "family": f, "variant": v, "base": base,
-                                                          "instructions": [a, b, c], "what": "instruction count grows super-linearly with the buffer length (increment ratio %.2f > 3.0)" % ratio})
+                                                          "instructions": [a, b, c], "what": "instruction count grows super-linearly with the buffer length (increment ratio %.2f > 2.5)" % ratio})
             res.add_violation(path, "family %s (%s): instructions %d/%d/%d" % (f, v, a, b, c))
     res.states += len(jobs)
     res.transitions += len(jobs)
-    res.engines.append({"engine": "instruction counts (valgrind --tool=cachegrind --cache-sim=no on the release digest binary)",
-                        "rule": "I(4N)-I(2N) <= 3.0 x (I(2N)-I(N)) for the complete input and for the input without its last 3 bytes; buffer construction is counted too", "rows": rows})
+    res.engines.append({"engine": "instruction counts (valgrind --tool=callgrind --toggle-collect=verif_work_parse on the release digest binary: instructions inside the parse call only)",
+                        "rule": "I(4N)-I(2N) <= 2.5 x (I(2N)-I(N)) for the complete input, the input without its final line ends (unterminated) and the input with a NUL in place of them (error); only the parse call is counted", "rows": rows})
 
 
 # ------------------------------------------------------------------------------------------
@@ -557,6 +583,11 @@ def replay(rep, path):
         if rep["expect"] == "reject":
             return 1 if rc == 0 else 0
         return 1 if rc != 0 else 0
+    if kind == "backend-selection":
+        b = build_variant(rep["variant"], rep["profile"])
+        got = run([b, "info"])[1].strip()
+        print("variant %s: build selects %r, documented %r" % (rep["variant"], got, rep["expected"]))
+        return 1 if got != rep["expected"] else 0
     if kind == "memcheck":
         binary = build_variant("runtime", "release")
         rc, so, se, _ = run(["valgrind", "-q", "--error-exitcode=9", "--partial-loads-ok=no", binary, "memcheck", str(rep["lmax"]), "--backend", rep["backend"]], timeout=3000)
@@ -566,10 +597,10 @@ def replay(rep, path):
         binary = build_variant("runtime", "release")
         vals = []
         for m in (1, 2, 4):
-            rc, so, se, _ = run(["valgrind", "--tool=cachegrind", "--cache-sim=no", "--cachegrind-out-file=/dev/null", binary, "work", rep["family"], str(rep["base"] * m), rep.get("variant", "complete")])
-            vals.append(int(re.search(r"I\s+refs:\s+([\d,]+)", se).group(1).replace(",", "")))
+            rc, so, se, _ = run(CALLGRIND + [binary, "work", rep["family"], str(rep["base"] * m), rep.get("variant", "complete")])
+            vals.append(int(re.search(r"Collected\s*:\s*(\d+)", se).group(1)))
         ratio = (vals[2] - vals[1]) / max(vals[1] - vals[0], 1)
         print("family %s: instructions %s, increment ratio %.2f" % (rep["family"], vals, ratio))
-        return 1 if ratio > 3.0 else 0
+        return 1 if ratio > 2.5 else 0
     print("no replay handler for kind %r" % kind)
     return 2
